@@ -297,10 +297,21 @@ func (s *ServerProc) WaitLog(markers []string, within time.Duration) (string, er
 	}
 }
 
+// atomicWrite replaces a file in one step (write aside + rename), so that a server that is
+// reading the configuration at that moment sees either the old or the new content, never a
+// truncated file.
+func atomicWrite(path string, data []byte) error {
+	tmp := path + ".new"
+	if err := os.WriteFile(tmp, data, 0o644); err != nil {
+		return err
+	}
+	return os.Rename(tmp, path)
+}
+
 // Reload writes the configuration file content (raw) and sends SIGHUP; returns "ok" or "failed".
 func (s *ServerProc) Reload(raw []byte, within time.Duration) (string, error) {
 	if raw != nil {
-		if err := os.WriteFile(s.CfgPath, raw, 0o644); err != nil {
+		if err := atomicWrite(s.CfgPath, raw); err != nil {
 			return "", err
 		}
 	}
